@@ -154,22 +154,37 @@ def main(argv):
             json.dump(meta, open(os.path.join(dst, "meta.json"), "w"), indent=1)
         return 0 if silent else 1
     if argv[0] == "recheck":
+        # recheck [substring] [--update]: --update records the new outcome in meta.json and keeps the
+        # outcome of the first evaluation (before any strengthening) under "first_evaluation"
         base = os.path.join(VERIF, "seeded")
         bad = 0
+        update = "--update" in argv
+        sub = [a for a in argv[1:] if not a.startswith("--")]
         for d in sorted(os.listdir(base)):
             m = os.path.join(base, d, "meta.json")
-            if not os.path.exists(m):
+            if not os.path.exists(m) or (sub and not any(x in d for x in sub)):
                 continue
             meta = json.load(open(m))
             props = list(meta["caught_by"].keys())
             res = evaluate(os.path.join(base, d), props, skip_suite=True)
+            if not res.get("applies"):
+                print("%-40s PATCH DOES NOT APPLY to HEAD: %s" % (d, res.get("apply_error", "")[-120:].replace("\n", " ")))
+                bad += 1
+                continue
             line = []
+            if res.get("demo_patched_rc") == 0:
+                line.append("DEMO-PASSES-WITH-PATCH")
             for p in props:
                 now = res["checks"][p]["rc"] == 1
                 was = meta["caught_by"][p]["caught"]
-                line.append("%s:%s%s" % (p, "caught" if now else "MISSED", "" if now == was else " (was %s)" % was))
+                line.append("%s:%s%s" % (p, "caught" if now else "MISSED(rc=%s)" % res["checks"][p]["rc"], "" if now == was else " (was %s)" % was))
                 if was and not now:
                     bad += 1
+            if update:
+                meta.setdefault("first_evaluation", {p: meta["caught_by"][p]["caught"] for p in props})
+                meta["caught_by"] = {p: {"caught": c["rc"] == 1, "oracles": c["oracles"][:6]} for p, c in res["checks"].items()}
+                meta["verified"]["demo_with_patch_rc"] = res.get("demo_patched_rc")
+                json.dump(meta, open(m, "w"), indent=1)
             print("%-40s %s" % (d, " ".join(line)))
             sys.stdout.flush()
         return 1 if bad else 0
